@@ -18,7 +18,10 @@ RULE = ("(a) generated instances (<= 150 nt) of the 85 kit classes, generic clas
         "over the 58 enzymes and user-defined parts with drawn IUPAC signatures, "
         "optionally mutated; (b) every plasmid of the YTK/PTK/CIDAR/EcoFlex/Plant "
         "registries with the class its registry assigns; (c) C01-style assemblies "
-        "with one participant rotated. Cases whose reference search (dna.ref_all_"
+        "with one participant rotated; (d) canonical assemblies of registry plasmids "
+        "(C19's overhang-graph search: YTK, PTK+YTK, CIDAR, EcoFlex, Plant) with each "
+        "participant in turn rotated by the real >> to origins on both flanks and in "
+        "the middle of its structure and to drawn origins. Cases whose reference search (dna.ref_all_"
         "starts) does not find exactly one structure start are counted and skipped. "
         "Oracle: the answers at rotation 0: is_valid, overhang_start, overhang_end, "
         "target, placeholder must be identical at (a) every rotation 1..n-1, (b) "
@@ -128,6 +131,33 @@ def check(spec, ctx):
         key, cls, word, record = items[spec["id"]]
         nt = sweep(cls, word, spec["ks"], ctx, spec["reg"] + spec["id"], "registry %s/%s" % (spec["reg"], key))
         ctx.note(spec, nt > 0, ["registry:" + spec["reg"]], sample=len(spec["ks"]) < 100)
+    elif kind == "reg-assembly":
+        from checks import c19
+        world = c19._world(spec["reg"])
+        vec = world["vectors"][spec["vector"]]
+        mods = [world["modules"][k] for k in spec["path"]]
+        ents = [vec] + mods
+        base = dna.canon(str(sut(c19._assemble, vec, mods).seq))
+        who = spec["who"] % len(ents)
+        ent = ents[who]
+        n = len(ent.record.seq)
+        ref = dna.ref_search(type(ent).structure(), str(ent.record.seq), True)
+        nt = 0
+        for k in spec["ks"]:
+            k %= n
+            rotated = type(ent)(sut(lambda: ent.record >> k))
+            ents2 = list(ents)
+            ents2[who] = rotated
+            p = sut(c19._assemble, ents2[0], ents2[1:])
+            if dna.canon(str(p.seq)) != base:
+                raise Violation("ROTATION:product", "%s assembly %s + %r: rotating %s by %d (real >>) "
+                                "changes the product" % (spec["reg"], spec["vector"], spec["path"],
+                                                         ent.record.id, k))
+            origin = (n - k) % n
+            if ref is not None and 0 < (origin - ref.start) % n < (ref.end - ref.start):
+                nt += 1
+        ctx.event("registry-assembly-rotations", len(spec["ks"]))
+        ctx.note(spec, nt > 0, ["reg-assembly:" + spec["reg"]])
     else:
         a = spec["assembly"]
         p0, w0, bv, bms = c01.assemble(a)
@@ -157,7 +187,7 @@ def _lcg(seed):
 
 
 def exhaustive_tasks(tier):
-    tasks = []
+    tasks = [[reg, [], "assemblies"] for reg in registries.NAMES]
     for reg in registries.NAMES:
         ids = [i[0] for i in registries.items(reg)]
         if tier == "quick":
@@ -170,9 +200,44 @@ def exhaustive_tasks(tier):
     return tasks
 
 
+def _registry_assemblies(reg, ctx):
+    """Canonical registry assemblies (C19's search) with each participant in
+    turn rotated, with the real >>, to origins on both flanks of its structure
+    and to drawn origins."""
+    from checks import c19
+    mod = sys.modules[__name__]
+    world = c19._world(reg)
+    rnd = _lcg(ctx.seed + 17)
+    nvec = 0
+    for vkey in sorted(world["vectors"]):
+        vec = world["vectors"][vkey]
+        paths, bytype = c19._type_paths(world, vec, 2 if ctx.tier == "quick" else 12)
+        if not paths:
+            continue
+        nvec += 1
+        if nvec > (1 if ctx.tier == "quick" else 4):
+            break
+        for tp in paths:
+            path = [bytype[t][next(rnd) % len(bytype[t])] for t in tp]
+            ents = [vec] + [world["modules"][k] for k in path]
+            for who, ent in enumerate(ents):
+                word = str(ent.record.seq)
+                n = len(word)
+                ref = dna.ref_search(type(ent).structure(), word, True)
+                ks = [next(rnd) % n for _ in range(2)]
+                if ref is not None:
+                    for pos in (ref.start + 1, ref.start + 8, ref.end - 8, ref.end - 1,
+                                (ref.start + ref.end) // 2):
+                        ks.append((n - pos) % n)
+                run_body(mod, {"kind": "reg-assembly", "reg": reg, "vector": vkey, "path": path,
+                               "who": who, "ks": sorted(set(ks))}, ctx)
+
+
 def run_exhaustive(arg, ctx):
     mod = sys.modules[__name__]
     reg, ids, mode = arg
+    if mode == "assemblies":
+        return _registry_assemblies(reg, ctx)
     items = {i[0]: i for i in registries.items(reg)}
     rnd = _lcg(ctx.seed)
     for key in ids:
